@@ -12,7 +12,8 @@ from concurrent.futures import ThreadPoolExecutor
 
 # the framework root: /verif as registered; a snapshot (vp run) works from its own copy
 VERIF = os.environ.get("VERIF_ROOT") or os.path.dirname(os.path.dirname(os.path.abspath(__file__)))
-REPO = "/repo"
+# the tree under test: /repo as registered; a snapshot run (vp run --with-repo) may point at its own copy
+REPO = os.environ.get("VERIF_REPO") or "/repo"
 WORK = os.path.join(VERIF, "work")
 TARGET = os.path.join(VERIF, "target")
 HARNESS = os.path.join(VERIF, "harness")
@@ -32,6 +33,7 @@ def env_base():
     e["CARGO_NET_OFFLINE"] = "true"
     e["RUST_BACKTRACE"] = "0"
     e["VERIF_ROOT"] = VERIF
+    e["VERIF_REPO"] = REPO
     e.pop("RUSTFLAGS", None)
     e.pop("CARGO_TARGET_DIR", None)
     return e
